@@ -13,14 +13,13 @@
    yields the same plan, that the evaluator terminates, that the process keeps running, and that
    executor goroutines end.  See notes/C17.md.
 
-   FULL statements that are FALSE for this code, each with a proved guarded variant and a
-   vm_compute witness below:
-     (F1) after DeleteQuery(q) / CancelQuery(q) of any known query, q is in neither table and is
-          never started            -- false when q is still in the waiting queue (both calls are no-ops);
-     (F2) after a terminal state + DeleteQuery no goroutine of the query remains
-                                   -- false after CancelQuery (the timeout watcher is not released);
-     (F3) no sender ever blocks on a full StateChan while holding a table lock
-                                   -- false: CancelQuery on a query whose channel holds 10 unread messages. *)
+   The statements below are at full strength for the code AFTER the repairs
+   fixes/C17-cancel-waiting-query (CancelQuery / DeleteQuery also handle a query that is still
+   waiting, the move from the queue to the running table is atomic, CANCELLED is sent with no lock
+   held) and fixes/C17-release-timeout-watcher (DeleteQuery always releases the timeout watcher).
+   Hypothesis [live_fresh mx init ops = true]: no Start re-uses a qid that is still in a table
+   (the server's qid counter; StartQuery's own duplicate check looks at the running table only).
+   The pre-fix behaviour is documented at the end by C17_prefix_*_refuted (model [step_prefix]). *)
 From Coq Require Import List Sorted.
 From SigM Require Import Base QueryLife.
 From SigP Require Import BaseProofs QueryLifeProofs.
@@ -77,8 +76,9 @@ Theorem C17_instance_persists : forall mx ops1 ops2 e,
 Proof. exact instance_persists. Qed.
 Print Assumptions C17_instance_persists.
 
-(* a query is started at most once: its log is empty, or READY, RUNNING followed by messages that
-   are never READY / RUNNING again (no way back from a terminal state to running) *)
+(* a query is started at most once: READY, RUNNING occur at most once and only at the very beginning
+   of its message log (no way back from a terminal state to running; a query cancelled while
+   waiting has just CANCELLED) *)
 Theorem C17_started_once : forall mx ops, Forall log_ok (insts (run mx init ops)).
 Proof. exact started_once. Qed.
 Print Assumptions C17_started_once.
@@ -89,20 +89,18 @@ Theorem C17_waiting_untouched : forall mx ops,
 Proof. exact waiting_untouched. Qed.
 Print Assumptions C17_waiting_untouched.
 
-(* ---------- no entry after a terminal state (F1) ---------- *)
-Theorem C17_no_entry_after_terminal_guarded : forall mx ops q,
-  let s := run mx init ops in
-  wedged s = false -> in_table q (waiting s) = false ->
-  let s' := fst (step mx s (Delete q)) in
-  in_table q (running s') = false /\ in_table q (waiting s') = false.
-Proof. exact no_entry_after_terminal_guarded. Qed.
-Print Assumptions C17_no_entry_after_terminal_guarded.
+(* ---------- no entry after a terminal state ---------- *)
+Theorem C17_live_qids_unique : forall mx ops, live_fresh mx init ops = true ->
+  NoDup (map e_qid (running (run mx init ops) ++ waiting (run mx init ops))).
+Proof. exact live_qids_unique. Qed.
+Print Assumptions C17_live_qids_unique.
 
-Theorem C17_no_entry_after_terminal_refuted :
-  exists mx ops q, wedged (run mx init ops) = false /\
-    in_table q (waiting (run mx init (ops ++ [Delete q]))) = true.
-Proof. exact no_entry_after_terminal_refuted. Qed.
-Print Assumptions C17_no_entry_after_terminal_refuted.
+(* after DeleteQuery(q) the qid is in neither table, wherever the query was *)
+Theorem C17_no_entry_after_terminal : forall mx ops q, live_fresh mx init ops = true ->
+  let s' := fst (step mx (run mx init ops) (Delete q)) in
+  in_table q (running s') = false /\ in_table q (waiting s') = false.
+Proof. exact no_entry_after_terminal. Qed.
+Print Assumptions C17_no_entry_after_terminal.
 
 (* an instance that left the tables stays out of them for ever *)
 Theorem C17_removed_instance_never_returns : forall mx ops1 ops2 e,
@@ -112,63 +110,102 @@ Theorem C17_removed_instance_never_returns : forall mx ops1 ops2 e,
 Proof. exact removed_instance_never_returns. Qed.
 Print Assumptions C17_removed_instance_never_returns.
 
-(* cancelling a query of the running table (channel not full) is a terminal transition ... *)
-Theorem C17_cancel_running_guarded : forall mx ops q e,
+(* a query cancelled while waiting leaves the queue, is told CANCELLED (its terminal state) and,
+   by the theorem above and C17_started_once, is never started *)
+Theorem C17_cancel_waiting_never_started : forall mx ops q, live_fresh mx init ops = true ->
+  in_table q (waiting (run mx init ops)) = true ->
+  let s' := fst (step mx (run mx init ops) (Cancel q)) in
+  in_table q (running s') = false /\ in_table q (waiting s') = false /\
+  exists e', In e' (dead s') /\ e_qid e' = q /\ e_cancelled e' = true /\ e_log e' = [CANCELLED] /\
+             term_of e' = Some CANCELLED.
+Proof. exact cancel_waiting_never_started. Qed.
+Print Assumptions C17_cancel_waiting_never_started.
+
+(* cancelling a running query always sets the flag; CANCELLED is delivered (terminal state) when
+   the channel has room, otherwise only the canceller waits *)
+Theorem C17_cancel_running_terminal : forall mx ops q e,
   let s := run mx init ops in
-  wedged s = false -> lookup q (running s) = Some e -> has_room e = true ->
+  lookup q (running s) = Some e ->
   let s' := fst (step mx s (Cancel q)) in
   exists e', lookup q (running s') = Some e' /\ e_ser e' = e_ser e /\ e_cancelled e' = true /\
-             e_log e' = CANCELLED :: e_log e /\ term_of e' <> None /\ wedged s' = false.
-Proof. exact cancel_running_guarded. Qed.
-Print Assumptions C17_cancel_running_guarded.
+             (has_room e = true -> e_log e' = CANCELLED :: e_log e /\ term_of e' <> None).
+Proof. exact cancel_running_terminal. Qed.
+Print Assumptions C17_cancel_running_terminal.
 
-(* ... but cancelling a waiting query does nothing: it is started later, not cancelled, and never told *)
-Theorem C17_cancel_waiting_refuted :
-  exists mx ops q, in_table q (waiting (run mx init ops)) = true /\
-    let s' := run mx init (ops ++ [Cancel q; Pull]) in
-    exists e, lookup q (running s') = Some e /\ e_cancelled e = false /\ e_log e = [RUNNING; READY] /\ term_of e = None.
-Proof. exact cancel_waiting_refuted. Qed.
-Print Assumptions C17_cancel_waiting_refuted.
-
-(* ---------- goroutines of the life cycle: the timeout watcher (F2) ---------- *)
-Theorem C17_watcher_released_guarded : forall mx ops q e,
+(* ---------- goroutines of the life cycle: the timeout watcher ---------- *)
+(* every live watcher belongs to an entry of the running table: when a query has left the tables
+   (complete, error, cancelled or timed out, then DeleteQuery) no goroutine of its life cycle remains *)
+Theorem C17_watcher_released : forall mx ops, live_fresh mx init ops = true ->
   let s := run mx init ops in
-  wedged s = false -> lookup q (running s) = Some e -> e_cancelled e = false ->
-  forall w, In w (watchers (fst (step mx s (Delete q)))) -> fst w <> e_ser e.
-Proof. exact watcher_released_guarded. Qed.
-Print Assumptions C17_watcher_released_guarded.
+  forall w, In w (watchers s) -> exists e, In e (running s) /\ e_ser e = fst w /\ e_qid e = snd w.
+Proof. exact watcher_released. Qed.
+Print Assumptions C17_watcher_released.
 
-Theorem C17_watcher_released_refuted :
-  exists mx ops q, let s := run mx init ops in
-    running s = [] /\ waiting s = [] /\ wedged s = false /\ has_watcher q s = true.
-Proof. exact watcher_released_refuted. Qed.
-Print Assumptions C17_watcher_released_refuted.
+Theorem C17_no_goroutine_when_tables_empty : forall mx ops, live_fresh mx init ops = true ->
+  running (run mx init ops) = [] -> watchers (run mx init ops) = [].
+Proof. exact no_goroutine_when_tables_empty. Qed.
+Print Assumptions C17_no_goroutine_when_tables_empty.
 
-(* ---------- cancellation / timeout never blocks other queries (F3) ---------- *)
-(* guard: no qid is sent more than 8 messages besides READY and RUNNING *)
-Theorem C17_no_send_on_full_channel_under_lock_guarded : forall mx ops,
-  send_budget_ok ops = true -> wedged (run mx init ops) = false.
-Proof. exact no_send_on_full_channel_under_lock_guarded. Qed.
-Print Assumptions C17_no_send_on_full_channel_under_lock_guarded.
+(* ---------- cancellation / timeout never blocks other queries ---------- *)
+(* for every op sequence no sender is ever blocked in a channel send while holding arqMapLock or
+   waitingQueriesLock *)
+Theorem C17_no_send_on_full_channel_under_lock : forall mx ops, wedged (run mx init ops) = false.
+Proof. exact no_send_on_full_channel_under_lock. Qed.
+Print Assumptions C17_no_send_on_full_channel_under_lock.
 
-(* starting and admitting a query never blocks, whatever happened before *)
 Theorem C17_admission_never_blocks : forall mx ops o,
-  wedged (run mx init ops) = false -> (o = Pull \/ exists q a f, o = Start q a f) ->
+  (o = Pull \/ exists q a f, o = Start q a f) ->
   wedged (fst (step mx (run mx init ops) o)) = false.
 Proof. exact admission_never_blocks. Qed.
 Print Assumptions C17_admission_never_blocks.
 
-Theorem C17_no_send_on_full_channel_refuted :
-  exists mx ops, wedged (run mx init ops) = true /\ wedged (run mx init (removelast ops)) = false.
-Proof. exact no_send_on_full_channel_refuted. Qed.
-Print Assumptions C17_no_send_on_full_channel_refuted.
+(* ---------- regression witnesses of the repaired defects, and non-vacuity ---------- *)
+Theorem C17_fixed_witnesses :
+  (let s := run 2 init [Start 7 false false; Cancel 7; Pull] in
+   running s = [] /\ waiting s = [] /\ map e_log (dead s) = [[CANCELLED]]) /\
+  (let s := run 2 init [Start 7 false false; Delete 7; Pull] in
+   running s = [] /\ waiting s = [] /\ map e_log (dead s) = [[]]) /\
+  (let s := run 2 init [Start 7 false true; Cancel 7; Delete 7] in
+   running s = [] /\ waiting s = [] /\ watchers s = []) /\
+  (let s := run 2 init (Start 1 false true :: repeat (Cancel 1) 9 ++ [Start 2 false false; Pull]) in
+   wedged s = false /\ in_table 2 (running s) = true).
+Proof.
+  exact (conj fixed_cancel_waiting (conj fixed_delete_waiting
+        (conj fixed_watcher_released fixed_cancel_full_channel_blocks_nobody))).
+Qed.
+Print Assumptions C17_fixed_witnesses.
 
-(* ---------- the guards can be met ---------- *)
-Theorem C17_guards_satisfiable :
-  send_budget_ok [Start 1 false false; Pull; Recv 1; Recv 1; Complete 1; Recv 1; Delete 1] = true /\
-  (let s := run 2 init [Start 1 false true; Complete 1] in
-   wedged s = false /\ in_table 1 (waiting s) = false /\ in_table 1 (running s) = true) /\
-  (let s := run 2 init [Start 1 false true] in
-   exists e, lookup 1 (running s) = Some e /\ has_room e = true /\ e_cancelled e = false).
-Proof. exact guards_satisfiable. Qed.
-Print Assumptions C17_guards_satisfiable.
+Theorem C17_live_fresh_satisfiable :
+  live_fresh 1 init [Start 1 false false; Start 2 false false; Pull; Cancel 2; Complete 1; Recv 1; Delete 1;
+                     Start 1 false true; Cancel 1; Delete 1] = true.
+Proof. exact live_fresh_satisfiable. Qed.
+Print Assumptions C17_live_fresh_satisfiable.
+
+(* ---------- PRE-FIX documentation (about [step_prefix] / [run_prefix], querystatus.go before the
+   two repairs; no longer the code).  Before the fixes the statements above held only under guards
+   ("q is not in the waiting queue", "the query was not cancelled", "at most 8 messages besides
+   READY/RUNNING per qid") and were refuted without them; each witness was confirmed on the pre-fix
+   code.  The harness keeps the generator streams: a regression is a VIOLATION of the classes
+   cancel_waiting_query_noop, cancelled_query_watcher_lingers, cancel_blocks_on_full_state_channel. ---------- *)
+Theorem C17_prefix_no_entry_after_terminal_refuted :
+  exists mx ops q, in_table q (waiting (run_prefix mx init (ops ++ [Delete q]))) = true.
+Proof. exact prefix_no_entry_after_terminal_refuted. Qed.
+Print Assumptions C17_prefix_no_entry_after_terminal_refuted.
+
+Theorem C17_prefix_cancel_waiting_refuted :
+  exists mx ops q, in_table q (waiting (run_prefix mx init ops)) = true /\
+    let s' := run_prefix mx init (ops ++ [Cancel q; Pull]) in
+    exists e, lookup q (running s') = Some e /\ e_cancelled e = false /\ e_log e = [RUNNING; READY] /\ term_of e = None.
+Proof. exact prefix_cancel_waiting_refuted. Qed.
+Print Assumptions C17_prefix_cancel_waiting_refuted.
+
+Theorem C17_prefix_watcher_released_refuted :
+  exists mx ops q, let s := run_prefix mx init ops in
+    running s = [] /\ waiting s = [] /\ wedged s = false /\ has_watcher q s = true.
+Proof. exact prefix_watcher_released_refuted. Qed.
+Print Assumptions C17_prefix_watcher_released_refuted.
+
+Theorem C17_prefix_no_send_on_full_channel_refuted :
+  exists mx ops, wedged (run_prefix mx init ops) = true /\ wedged (run_prefix mx init (removelast ops)) = false.
+Proof. exact prefix_no_send_on_full_channel_refuted. Qed.
+Print Assumptions C17_prefix_no_send_on_full_channel_refuted.
